@@ -7,6 +7,10 @@
 package seqx
 
 import (
+	"crypto/sha256"
+	"sort"
+	"fmt"
+	"os"
 	"encoding/json"
 	"sync"
 	"sync/atomic"
@@ -55,6 +59,12 @@ type Model struct {
 	MaxDev   int
 	// Serial: the system uses process-global facilities (virtual tickers); explore on one worker.
 	Serial bool
+	// CheckMerges: for every canonical state, this many OTHER histories that reach it are expanded too and the set
+	// of their successors' canonical forms is compared with the representative's. Equal: the merge was sound (the
+	// monitors have meanwhile also judged every event from a differently reached instance of the state). Different:
+	// the canonical form hides something that shapes the future (private state the dump cannot see); the other
+	// history is then kept as a state of its own and explored.
+	CheckMerges int
 }
 
 type Stats struct {
@@ -65,10 +75,15 @@ type Stats struct {
 	DepthDone    int
 	LevelSizes   []int
 	Complete     bool
+	MergesChecked int64 // other histories into a known state whose successor sets were compared
+	MergesRefined int64 // ... and differed: kept as separate states
+	RefinedSample []Event
 }
 
 type item struct {
-	hist []Event
+	hist  []Event
+	canon string
+	alt   bool // another history into the known state canon
 }
 
 type succ struct {
@@ -76,15 +91,33 @@ type succ struct {
 	hist  []Event
 }
 
+// DefaultCheckMerges applies to models that leave CheckMerges 0 (a model opts out with -1).
+var DefaultCheckMerges = 1
+
 // Explore runs the search. It stops early (Complete=false) when run.Expired() or a violation cap is hit.
 func Explore(run *ev.Run, m Model) Stats {
 	var st Stats
+	if m.CheckMerges == 0 {
+		m.CheckMerges = DefaultCheckMerges
+	}
+	defer func() {
+		if m.CheckMerges > 0 {
+			run.AddExtra("merges_checked", st.MergesChecked)
+			run.AddExtra("merges_refined", st.MergesRefined)
+			if st.MergesRefined > 0 {
+				run.SetExtraOnce("merges_refined_sample", st.RefinedSample)
+			}
+		}
+	}()
 	seen := map[string]bool{}
 	root := m.New()
-	seen[m.Canon(root)] = true
+	rootCanon := m.Canon(root)
+	seen[rootCanon] = true
 	root.Close()
 	st.States = 1
-	frontier := []item{{}}
+	frontier := []item{{canon: rootCanon}}
+	vecs := map[string]string{}
+	altCount := map[string]int{}
 	replay := func(hist []Event) Sys {
 		s := m.New()
 		for i, e := range hist {
@@ -136,11 +169,60 @@ func Explore(run *ev.Run, m Model) Stats {
 			st.Complete = false
 		}
 		var next []item
-		for _, out := range results {
+		digest := func(out []succ) string {
+			set := map[string]bool{}
 			for _, su := range out {
+				set[su.canon] = true
+			}
+			keys := make([]string, 0, len(set))
+			for k := range set {
+				keys = append(keys, k)
+			}
+			sort.Strings(keys)
+			h := sha256.New()
+			for _, k := range keys {
+				h.Write([]byte(k))
+				h.Write([]byte{0})
+			}
+			return string(h.Sum(nil))
+		}
+		if m.CheckMerges > 0 && atomic.LoadInt32(&stopped) == 0 {
+			for i, out := range results {
+				if !frontier[i].alt {
+					vecs[frontier[i].canon] = digest(out)
+				}
+			}
+			for i, out := range results {
+				if !frontier[i].alt {
+					continue
+				}
+				st.MergesChecked++
+				if v, ok := vecs[frontier[i].canon]; ok && v == digest(out) {
+					// sound at one step: every successor is a known state; the successors are still offered as other
+					// histories into THOSE states (below), so that a difference that only shows some steps later is
+					// followed up; the cap of CheckMerges per state bounds the extra work
+					continue
+				}
+				st.MergesRefined++
+				if st.RefinedSample == nil {
+					st.RefinedSample = frontier[i].hist
+				}
+			}
+		}
+		for i, out := range results {
+			for _, su := range out {
+				// (an event that leaves the state unchanged makes a poor "other history": skipped)
+				if seen[su.canon] && m.CheckMerges > 0 && altCount[su.canon] < m.CheckMerges && depth+1 < m.MaxDepth && su.canon != frontier[i].canon {
+					altCount[su.canon]++
+					next = append(next, item{hist: su.hist, canon: su.canon, alt: true})
+					continue
+				}
 				if !seen[su.canon] {
 					seen[su.canon] = true
-					next = append(next, item{su.hist})
+					if dl := os.Getenv("VERIF_DUMP_LEVEL"); dl != "" && dl == fmt.Sprint(depth+1) {
+						fmt.Fprintf(os.Stderr, "CANON L%d %v\n  => %s\n", depth+1, su.hist, su.canon)
+					}
+					next = append(next, item{hist: su.hist, canon: su.canon})
 				}
 			}
 		}
